@@ -84,6 +84,9 @@ theorem Hamt.removeChild_s (h : Name → List Byte) (hd : Hamt) (n : Name) : (hd
   unfold Hamt.removeChild
   split <;> rfl
 
+theorem Hamt.countLinks_s (hd : Hamt) : hd.countLinks.s = hd.s := by
+  unfold Hamt.countLinks; split <;> rfl
+
 theorem Hamt.needsBasic_s (h : Name → List Byte) (g : Globals) (hd : Hamt) (n : Name) (a : Option Lnk) :
     (hd.needsBasic h g n a).1.s = hd.s := by
   unfold Hamt.needsBasic
@@ -91,8 +94,8 @@ theorem Hamt.needsBasic_s (h : Name → List Byte) (g : Globals) (hd : Hamt) (n 
   · rfl
   · split
     · rfl
-    · simp only
-      split <;> rfl
+    · simp only [Hamt.countLinks_s]
+    · simp only [Hamt.countLinks_s]
 
 theorem switchToBasic_s (g : Globals) (hd : Hamt) (ml : Int) :
     (switchToBasic g hd ml).1.s = hd.s ∧
